@@ -866,6 +866,16 @@ def evaluate(case, native):
             return True, (f'a job of group {grp} offered to route 0 is {"rejected" if native["rejected"] else "accepted"} after the solution-level refresh while the other routes serve '
                           f'{[r["groups"] for r in case["routes"][1:]]} (stale flags before the refresh: {native["stale_before"]})')
         return False, 'the group rule agrees with the tours'
+    if kind == 'ctx_from_solution':
+        kinds = case['tours']
+        want_kept = [f'v{i}' for i, k in enumerate(kinds) if k == 'job']
+        want_avail = sorted(f'v{i}' for i, k in enumerate(kinds) if k != 'job')
+        if native['kept'] != want_kept:
+            return True, f'insertion context from a solution with tours {kinds}: kept tours of {native["kept"]}, job-carrying tours are those of {want_kept}'
+        if native['available'] != want_avail:
+            return True, (f'insertion context from a solution with tours {kinds} (per vehicle): the registry offers {native["available"]} but no kept tour uses '
+                          f'{want_avail} - a vehicle is neither driving a tour nor available')
+        return False, 'vehicle bookkeeping matches the tours'
     if kind == 'statistic_sum':
         for k_ in ('cost', 'distance', 'duration', 'driving', 'serving', 'waiting', 'break_time', 'commuting', 'parking'):
             want = case['a'][k_] + case['b'][k_]
